@@ -112,6 +112,8 @@ def check_history(case):
                 depth_now = len(inspect.stack())
                 old = sys.getrecursionlimit()
                 sys.setrecursionlimit(depth_now + 120)
+                gc_was = gc.isenabled()
+                gc.disable()          # Hypothesis' gc callback must not run on the shortened stack
                 try:
                     text = _deep_text(o[1], 400)
                     try:
@@ -125,6 +127,8 @@ def check_history(case):
                         raised += 1
                 finally:
                     sys.setrecursionlimit(old)
+                    if gc_was:
+                        gc.enable()
             elif kind == 'stream':
                 g = sqlparse.parsestream(io.StringIO(o[1]))
                 try:
@@ -157,7 +161,8 @@ def check_history(case):
                     lx.clear()
                     lx.set_SQL_REGEX(keywords.SQL_REGEX)
                 else:
-                    lx.add_keywords({'ZORK': T.Keyword, 'SELECT': T.Name, 'FROM': T.Keyword.DML})
+                    lx.add_keywords({'ZORK': T.Keyword, 'SELECT': T.Name, 'FROM': T.Keyword.DML, 'T': T.Keyword, 'A': T.Name.Builtin, 'B': T.Keyword,
+                                     'X': T.Keyword.DML, 'FOO': T.Keyword, 'TBL': T.Keyword.DDL, 'E': T.Keyword, 'Y': T.Name.Builtin})
                     # a custom dictionary appended after the defaults only adds words; make it observable by putting it first
                     lx._keywords.insert(0, lx._keywords.pop())
                 mode = 'reconfigured'
@@ -175,6 +180,17 @@ def check_history(case):
             f = exc_failure('raises', e)
             f.sig = kind + ':' + mode + ':' + f.sig
             res.failures.append(f)
+        if mode != 'default':
+            # while reconfigured the probe is still executed (its words are lexed under the custom configuration, so caches
+            # keyed on them are populated) but its result is not compared
+            try:
+                c20_memo.run_probe(pi)
+            except SQLParseError:
+                pass
+            except Exception as e:
+                f = exc_failure('raises', e)
+                f.sig = 'probe-while-reconfigured:' + f.sig
+                res.failures.append(f)
         if mode == 'default':
             try:
                 ok, got = probe_ok(pi)
